@@ -20,22 +20,22 @@ Theorem C26_spec_deterministic : forall tf bk pre r1 r2,
 Proof. exact spec_deterministic. Qed.
 Print Assumptions C26_spec_deterministic.
 
-(* spec_total, transaction level: an included transaction never ends in the model's
-   fuel exhaustion (nor in an out-of-range memory access or a stack-shape fault): the
-   only non-EVM status left is F_RefundUnderflow, exactly as in C27. *)
+(* spec_total, transaction level: an included transaction never ends in a model fault
+   (fuel exhaustion, out-of-range memory access, stack-shape fault, refund counter below
+   zero): its status is an outcome of the EVM.  (From C27's run_total and its
+   refund-counter invariant, which the prepared state of a transaction satisfies.) *)
 Theorem C26_spec_total_tx : forall tf b accts gas_available t accts' rc k,
-  apply_tx tf b accts gas_available t = inr (accts', rc) ->
-  rc_status rc = S_Fault k -> k = F_RefundUnderflow.
+  apply_tx tf b accts gas_available t = inr (accts', rc) -> rc_status rc <> S_Fault k.
 Proof. exact spec_total_tx. Qed.
 Print Assumptions C26_spec_total_tx.
 
-(* spec_total, block level: no receipt and no system call ends in fuel exhaustion, and
+(* spec_total, block level: no receipt and no system call ends in a model fault, and
    the state root exists (no trie operation fails) for any hash function with byte
    outputs (named hypothesis; Keccak-256 in the executable instance). *)
 Theorem C26_spec_total : forall tf bk pre,
   let r := apply_block tf bk pre in
-  (forall rc cum k, In (rc, cum) (br_receipts r) -> rc_status rc = S_Fault k -> k = F_RefundUnderflow) /\
-  (forall k, br_error r = Some (BE_Fault k) -> k = F_RefundUnderflow) /\
+  (forall rc cum k, In (rc, cum) (br_receipts r) -> rc_status rc <> S_Fault k) /\
+  (forall k, br_error r <> Some (BE_Fault k)) /\
   ((forall x, bytes_key (fk_keccak (tf_evm tf) x)) -> exists h, br_state_root r = Some h).
 Proof. exact spec_total_block. Qed.
 Print Assumptions C26_spec_total.
@@ -109,7 +109,7 @@ Example C26_nonvacuous :
   let sender := 0x7e5f4552091a69125d5dfcb7b8c2659029395bdf in
   let pre := [(4096, mk_account 0 1 [96; 1; 96; 0; 85] []); (sender, mk_account (10 ^ 18) 0 [] [])] in
   let b := mk_benv 0xcb01 1000 1 0 30000000 1 10 1 in
-  let t n := mk_tx 2 sender n 100000 20 2 (Some 4096) 0 [] [] 0 [] in
+  let t n := mk_tx 2 sender n 100000 20 2 (Some 4096) 0 [] [] 0 [] [] in
   let r := apply_block cancun_tf (mk_block b None [t 0; t 5] [(0x2222, 3)]) pre in
   example_check r
     [0xfe; 0x72; 0x92; 0x9a; 0x9a; 0xbe; 0xd6; 0x1d; 0x0c; 0xcc; 0xc2; 0xae; 0x2a; 0xce; 0xba; 0x30;
